@@ -184,6 +184,98 @@ def rule_forward(ctx: Ctx) -> None:
                 "the driver iterates the generations of the pipeline returned by prepare_run", f"the driver iterates {gens} but prepare_run's pipeline is bound to `{first}`: the unrestricted pipeline is run", key=f"uses-restricted {f.name}")
 
 
+def rule_cut_is_what_was_supplied(ctx: Ctx) -> None:
+    """The cut set handed to the selection is exactly the supplied names: nothing is taken out of it (a requested name that is also
+    supplied must still cut its producer away) and nothing that was NOT supplied is added to it (defaults are not supplied values:
+    they make root arguments optional, they do not make the branches hanging off them part of the request)."""
+    P = ctx.prog
+    sp = P.func(f"{BASE}.Pipeline.subpipeline")
+    d = Defs(sp)
+    calls = [c for c in ast.walk(sp.node) if isinstance(c, ast.Call) and dotted(c.func).rsplit(".", 1)[-1] == "_find_nodes_between"]
+    for c in calls:
+        a = arg(c, 1, "input_nodes")
+        if not isinstance(a, ast.Name):
+            ctx.add("1-closure", sp, c, None, f"UNDECIDED: the cut set `{norm(a)[:40] if a is not None else '?'}` is not a plain local", key="cut-not-narrowed")
+            continue
+        shrink = []
+        for n_ in walk_no_nested(sp.node):
+            if isinstance(n_, ast.AugAssign) and isinstance(n_.target, ast.Name) and n_.target.id == a.id and isinstance(n_.op, (ast.Sub, ast.BitAnd)):
+                shrink.append(n_)
+            if isinstance(n_, ast.Call) and isinstance(n_.func, ast.Attribute) and isinstance(n_.func.value, ast.Name) and n_.func.value.id == a.id and n_.func.attr in ("difference_update", "intersection_update", "discard", "remove", "pop", "clear"):
+                shrink.append(n_)
+            if isinstance(n_, ast.Assign) and any(isinstance(t, ast.Name) and t.id == a.id for t in n_.targets) and isinstance(n_.value, ast.BinOp) and isinstance(n_.value.op, (ast.Sub, ast.BitAnd)) and any(isinstance(x, ast.Name) and x.id == a.id for x in ast.walk(n_.value)):
+                shrink.append(n_)
+        ctx.add("1-closure", sp, shrink[0] if shrink else c, not shrink, f"nothing is taken out of the cut set `{a.id}` before the selection" if not shrink else
+                f"`{norm(shrink[0])[:60]}` takes nodes out of the cut set: a supplied name that is also requested no longer cuts its producer away - the producer is kept, its inputs are demanded and the request is refused "
+                "(or the supplied value is rejected as an extra input)", key="cut-not-narrowed")
+    prep = P.func("pipefunc.map._prepare.prepare_run")
+    dp = Defs(prep)
+    for c in [c for c in ast.walk(prep.node) if isinstance(c, ast.Call) and isinstance(c.func, ast.Attribute) and c.func.attr == "subpipeline"]:
+        a0 = arg(c, 0, "inputs")
+        if a0 is None:
+            continue
+        r0 = dp.resolve(a0)
+        grown = [x for x in ast.walk(r0) if (isinstance(x, ast.BinOp) and isinstance(x.op, ast.BitOr)) or (isinstance(x, ast.Call) and isinstance(x.func, ast.Attribute) and x.func.attr in ("union", "update"))
+                 or (isinstance(x, (ast.Set, ast.List, ast.Tuple)) and sum(isinstance(e, ast.Starred) for e in x.elts) > 1)]
+        foreign = [x for g in grown for x in ast.walk(g) if isinstance(x, ast.Attribute) and x.attr in ("defaults", "root_args", "parameters", "all_output_names", "all_root_args", "unique_leaf_node")]
+        ctx.tri("2-order", prep, c, not grown, bool(foreign), "the names passed to subpipeline as supplied are the supplied inputs and nothing else",
+                f"`{norm(r0)[:70]}` passes `{norm(foreign[0]) if foreign else ''}` to subpipeline as if those names had been supplied: with auto_subpipeline and no output_names every leaf reachable from a DEFAULTED root argument "
+                "becomes part of the request - an unrelated branch is executed, or the map is refused because that branch needs inputs nobody gave", f"`{norm(r0)[:60]}` combines several sources", key="supplied-only")
+
+
+def rule_single_names_vs_whole_names(ctx: Ctx) -> None:
+    """`root_args` / `inputs` / mapspec names are SINGLE names; `func_dependencies`, `output_name` and the keys of
+    `output_to_func` may be WHOLE names (the tuple of a multi-output function).  A set operation between a collection of single
+    names and a collection holding whole names never matches a multi-output function through one of its elements."""
+    P = ctx.prog
+    ty = ctx.cg.typer
+
+    def alts(t):
+        return list(t.args) if t.kind == "union" else [t]
+
+    def elem(t):
+        out = []
+        for x in alts(t):
+            if x.kind in ("seq", "set"):
+                out.append(x.elem())
+            elif x.kind == "map" and x.args:
+                out.append(x.args[0])
+            elif x.kind == "none":
+                continue
+            else:
+                return None
+        return out
+
+    def single(es) -> bool:
+        fl = [a for e in es for a in alts(e)]
+        return bool(fl) and all((a.kind == "builtin" and a.name == "str") or a.kind == "any" for a in fl) and any(a.kind == "builtin" and a.name == "str" for a in fl)
+
+    def whole(es) -> bool:
+        fl = [a for e in es for a in alts(e)]
+        return any(a.kind == "tuple" for a in fl) and any(a.kind == "builtin" and a.name == "str" for a in fl)
+
+    n = 0
+    targets = [P.func(f"{BASE}.Pipeline.subpipeline"), P.func(f"{BASE}._find_nodes_between"), *P.functions_in("pipefunc.map._prepare")]
+    for f in targets:
+        for b in walk_no_nested(f.node):
+            ops = None
+            if isinstance(b, ast.BinOp) and isinstance(b.op, (ast.BitAnd, ast.Sub)):
+                ops = (b.left, b.right)
+            elif isinstance(b, ast.Call) and isinstance(b.func, ast.Attribute) and b.func.attr in ("intersection", "difference", "issubset", "issuperset", "isdisjoint") and len(b.args) == 1:
+                ops = (b.func.value, b.args[0])
+            if not ops:
+                continue
+            l_, r_ = (elem(ty.expr(f, o)) for o in ops)
+            if l_ is None or r_ is None:
+                continue
+            n += 1
+            bad = (single(l_) and whole(r_)) or (single(r_) and whole(l_))
+            ctx.add("1-closure", f, b, not bad, f"`{norm(b)[:60]}`: both sides hold the same kind of name" if not bad else
+                    f"`{norm(b)[:80]}` combines single names with whole output names (a multi-output function is listed under its TUPLE name): an input that is one element of a tuple output never matches - "
+                    "subpipeline({'lo', 'hi'}) comes back empty and map(..., auto_subpipeline=True) rejects the supplied values as extra inputs", key=f"name-kinds {f.name} {norm(b)[:40]}")
+    ctx.add("1-closure", BASE, "", True, f"{n} set operation(s) between name collections examined", key="name-kinds-scan")
+
+
 def rule_returns_all(ctx: Ctx) -> None:
     """What the drivers computed is what they return: the result mapping is keyed by SINGLE names (one entry per name of a
     tuple output) while a request (`output_names`) holds OUTPUT_TYPE values (a tuple for a multi-output function), so the two
@@ -223,7 +315,7 @@ def rule_returns_all(ctx: Ctx) -> None:
 
 
 def check(ctx: Ctx) -> None:
-    for rule in (rule_closure, rule_order, rule_message, rule_forward, rule_returns_all):
+    for rule in (rule_closure, rule_cut_is_what_was_supplied, rule_single_names_vs_whole_names, rule_order, rule_message, rule_forward, rule_returns_all):
         ctx.run(rule)
 
 
